@@ -16,13 +16,14 @@ import Hertz.Driver.C12
 import Hertz.Driver.C13
 import Hertz.Driver.C14
 import Hertz.Driver.C15
+import Hertz.Driver.C15N
 import Hertz.Driver.C16
 import Hertz.Driver.C18
 import Hertz.Driver.C19
 import Hertz.Driver.C20
 open Hertz.Driver
 
-def handlers : List Handler := [C17.handle, C17u.handle, C17x.handle, C07.handle, H1.handle, C04.handle, C05.handle, C06.handle, C08.handle, C09.handle, C10.handle, C11.handle, C12.handle, C13.handle, C14.handle, C15.handle, C16.handle, C18.handle, C19.handle, C20.handle]
+def handlers : List Handler := [C17.handle, C17u.handle, C17x.handle, C07.handle, H1.handle, C04.handle, C05.handle, C06.handle, C08.handle, C09.handle, C10.handle, C11.handle, C12.handle, C13.handle, C14.handle, C15.handle, C15N.handle, C16.handle, C18.handle, C19.handle, C20.handle]
 
 def dispatch (args impl : List String) : Option Result :=
   handlers.firstM (fun h => h args impl)
